@@ -345,9 +345,9 @@ func genC20o(r *rand.Rand, tier, id string) Case {
 	c := Case{ID: id, Kind: "m1", Params: []string{"iv=-"}}
 	for v := int64(1); v <= int64(nv); v++ {
 		c.Ops = append(c.Ops, h.version()...)
-		c.Ops = append(c.Ops, []string{"save"}, []string{"x", "oraw"})
+		c.Ops = append(c.Ops, []string{"save"}, []string{"x", "oraw"}, []string{"x", "lfraw"})
 		if v >= 3 && r.Intn(4) == 0 {
-			c.Ops = append(c.Ops, []string{"x", "prune", i64(1 + r.Int63n(v))}, []string{"x", "oraw"})
+			c.Ops = append(c.Ops, []string{"x", "prune", i64(1 + r.Int63n(v))}, []string{"x", "oraw"}, []string{"x", "lfraw"})
 		}
 	}
 	return c
